@@ -32,14 +32,17 @@ def handle (j : Json) : Json :=
       let sets ← jList (jList jNat) (jFieldD j "sets" (Json.arr #[]))
       let axes ← jList (fun a => do pure ((← jRat (← jField a "lo")), (← jRat (← jField a "hi")), (← jRat (← jField a "s"))))
         (jFieldD j "axes" (Json.arr #[]))
+      let frames ← jList (fun f => do pure ({ axes := ← jList jNat (← jField f "axes"), cel := ← jBool (← jField f "cel") } : FrameI))
+        (jFieldD j "frames" (Json.arr #[]))
       let used ← jList jNat (jFieldD j "used" (Json.arr #[]))
       let ins ← jList jNat (jFieldD j "insert" (Json.arr #[]))
-      pure (sets, axes, used, ins)) with
+      pure (sets, axes, used, ins, frames)) with
   | none => badRequest "C11"
-  | some (sets, axes, used, ins) =>
+  | some (sets, axes, used, ins, frames) =>
     let gs := (separableGroups sets).map (fun g => (g.eraseDups).mergeSort (· ≤ ·))
     okJson (Json.mkObj [
       ("groups", listToJson (listToJson natToJson) gs),
+      ("celestial", listToJson (listToJson natToJson) (gs.filter (celestialGroup frames))),
       ("axes", listToJson (fun (a : Rat × Rat × Rat) =>
         let (lo, hi, s) := a
         let n := npix lo hi s
